@@ -408,11 +408,21 @@ pub fn run(ctx: &mut Ctx) {
     ctx.run_prop("hist_string", n / 4, || hist_strategy(len), oracle_string);
     // short histories, dense: many more distinct prefixes of length <= 6
     ctx.run_prop("hist_short", n, || hist_strategy(6), oracle_u16);
+    if ctx.tier == crate::Tier::Thorough && ctx.violations().is_empty() {
+        for bytes in crate::fuzzrun::campaign(ctx, "stack_hist", 16, 1_500_000, 512) {
+            let h = crate::fuzzdec::decode_hist(&bytes);
+            let mut p = Probe::default();
+            if let Err(f) = oracle_u16(&h, &mut p) {
+                ctx.violation("fuzz_stack_hist", &f, serde_json::to_value(&h).unwrap_or(Value::Null));
+            }
+        }
+    }
 }
 
 pub fn replay(ctx: &mut Ctx, sub: &str, case: &Value) {
     match sub {
         "hist_string" => ctx.replay_case::<Hist, _>(sub, case, oracle_string),
+        "fuzz_stack_hist" => ctx.replay_case::<Hist, _>(sub, case, oracle_u16),
         _ => ctx.replay_case::<Hist, _>(sub, case, oracle_u16),
     }
 }
